@@ -40,7 +40,7 @@ end
 /-- Utterance ids: anything without parentheses (spaces are part of the id). -/
 def uttOk (u : List Char) : Bool := u.all (fun c => c != '(' && c != ')')
 
-/-- Nesting depth (0 for a token). -/
+-- Nesting depth (0 for a token).
 mutual
 def Item.depth : Item → Nat
   | .tok _ => 0
